@@ -36,6 +36,27 @@ func main() {
 		cmdDump(os.Args[2:])
 	case "list":
 		cmdList(os.Args[2:])
+	case "writeset":
+		// govc writeset <pkg> <func-substring> [key-substring]: callees whose write-set matches
+		p := mustLoad(os.Args[2:3])
+		for _, fn := range p.FuncList {
+			if !strings.Contains(FuncName(fn), os.Args[3]) {
+				continue
+			}
+			fmt.Println("==", FuncName(fn))
+			for _, c := range p.Pre.possibleCallees(fn) {
+				for _, k := range p.Pre.WriteSet[c].Sorted() {
+					if len(os.Args) > 4 && strings.Contains(k, os.Args[4]) {
+						fmt.Println("   callee", FuncName(c), "writes", k)
+					}
+				}
+			}
+			if len(os.Args) <= 4 {
+				for _, k := range p.Pre.WriteSet[fn].Sorted() {
+					fmt.Println("  ", k)
+				}
+			}
+		}
 	case "sweep":
 		cmdSweep(os.Args[2:])
 	case "verify":
